@@ -1,0 +1,6 @@
+//go:build !verif
+
+package scanner
+
+// verifCTHook is never set without the `verif` build tag; see verif_hooks_on.go.
+var verifCTHook func(ev string, id int, a, b int64, err error)
